@@ -193,7 +193,7 @@ func Run(r *core.Run, o Options) (*Result, error) {
 		if strings.Contains(line, "Error: Deadlock reached") && res.Violated == "" {
 			res.Violated = "deadlock"
 		}
-		if strings.Contains(line, "Error: The postcondition") || (strings.Contains(line, "POSTCONDITION") && strings.Contains(line, "violated")) || strings.Contains(line, "Post-condition") && strings.Contains(line, "violated") {
+		if strings.HasPrefix(line, "Error: Postcondition") && strings.Contains(line, "is false") {
 			res.PostFalse = true
 		}
 		if m := reCov.FindStringSubmatch(line); m != nil {
